@@ -43,7 +43,14 @@ fn main() {
             a[9] == "1",
         ),
         Some("replay") if a.len() >= 3 => driver::replay(&a[2]),
+        Some("selftest") => driver::selftest(),
+        Some("determinism") => {
+            let n: u64 = a.get(2).and_then(|s| s.parse().ok()).unwrap_or(2000);
+            let props: Vec<String> = if a.len() > 3 { a[3..].to_vec() } else { driver::CLAIMED.iter().map(|s| s.to_string()).collect() };
+            driver::determinism(&props, n)
+        }
         Some("one") if a.len() >= 5 => driver::one(&a[2], a[3].parse().unwrap(), a[4].parse().unwrap()),
+        Some("dbg19") => { debug_c19(a[2].parse().unwrap()); 0 }
         Some("show") if a.len() >= 4 => {
             let sc = profiles::generate(&a[2], driver::verif_seed(), a[3].parse().unwrap());
             println!("{}", serde_json::to_string_pretty(&sc).unwrap());
@@ -52,4 +59,27 @@ fn main() {
         _ => usage(),
     };
     std::process::exit(code);
+}
+
+#[allow(dead_code)]
+pub fn debug_c19(idx: u64) {
+    let sc = profiles::generate("C19", driver::verif_seed(), idx);
+    let res = run::run(&sc, &run::RunOpts { keep_before: true, trace: true, ..Default::default() });
+    let scenario::Workload::Dump(plan) = &sc.workload else { return };
+    let d = &res.dumps[0];
+    let mut kb = d.kernel_before.clone().unwrap();
+    kb.trace = Some(Vec::new());
+    let fresh = run::dump_on_kernel(kb, &sc.world, &plan.opts, &plan.dests[0], sc.seed);
+    let a = d.kernel_after.trace.clone().unwrap();
+    let b = fresh.kernel_after.trace.clone().unwrap();
+    for i in 0..a.len().max(b.len()) {
+        let x = a.get(i).cloned().unwrap_or_default();
+        let y = b.get(i).cloned().unwrap_or_default();
+        if x != y {
+            println!("DIFF at {}:\n  {}\n  {}", i, x, y);
+            for j in i.saturating_sub(5)..i { println!("  ctx {}", a[j]); }
+            break;
+        }
+    }
+    println!("hashes {:x} {:x} lens {} {}", d.kernel_after.trace_hash, fresh.kernel_after.trace_hash, a.len(), b.len());
 }
